@@ -75,13 +75,12 @@ Theorem C07_statement_self_equivalent : forall fuel t, SimM (emit_token fuel t) 
 Proof. exact sim_emit_token. Qed.
 Print Assumptions C07_statement_self_equivalent.
 
-(* Known finding (Known_changed_reported_unknown): a valid program -- every identifier it uses is defined -- is rejected
-   with "unknown identifier" diagnostics because two consecutive passes changed the same symbols.  A program that
-   assembles can therefore have an expansion by hand that does not. *)
-Theorem C07_changed_reported_unknown_refuted :
-  exists toks, Known_changed_reported_unknown (codegen 200 10 default_options toks) = true.
-Proof. exact changed_reported_unknown_witness. Qed.
-Print Assumptions C07_changed_reported_unknown_refuted.
+(* Former finding Known_changed_reported_unknown (repaired in 0b9c159): a symbol that changes value is recorded in
+   `changed`, never in `undefined`, so it can never be reported as an unknown identifier -- for every add_symbol. *)
+Theorem C07_changed_not_reported : forall id sym c,
+  match add_symbol id sym c with Ret _ c' | Err _ c' => undefined c' = undefined c | Abort _ => True end.
+Proof. exact changed_not_reported. Qed.
+Print Assumptions C07_changed_not_reported.
 
 (* ---- non-vacuity ---- *)
 Example C07_closed_literal : closed_value (mkL (ENum 10 [51%N] false false) (0, 0) []) 3.
@@ -104,3 +103,9 @@ Example C07_example_loop_equals_blocks :
   exists c c', codegen 10 10 default_options prog_loop = Done c /\ codegen 10 10 default_options prog_blocks = Done c' /\
                map snd (segment_image c) = [[202; 208; 253; 202; 208; 253]%N] /\ segment_image c = segment_image c'.
 Proof. eexists. eexists. vm_compute. repeat split. Qed.
+
+(* the former witness of Known_changed_reported_unknown now assembles *)
+Example C07_example_changing_symbols_converge :
+  exists c, codegen 200 10 default_options prog_changed = Done c /\
+            map snd (segment_image c) = [[173; 4; 1; 173; 5; 1; 173; 6; 1; 234; 234; 234]%N].
+Proof. exact changing_symbols_converge. Qed.
